@@ -201,6 +201,10 @@ pub struct Executor<E: Effect> {
     spawning: HashSet<ProcessId>,
     selecting: HashSet<ProcessId>,
     effecting: HashSet<ProcessId>,
+    // Processes that terminated since the last `take_exited`: a non-persistent process that
+    // finished (successfully or not), or a persistent one that failed. A persistent process that
+    // finished successfully is only sleeping until it is resumed and is not listed.
+    exited: Vec<ProcessId>,
     // Program data owned by executor
     constants: Vec<Constant>,
     functions: Vec<Function>,
@@ -604,6 +608,7 @@ impl<E: Effect> Executor<E> {
             spawning: HashSet::new(),
             selecting: HashSet::new(),
             effecting: HashSet::new(),
+            exited: Vec::new(),
             constants: vec![],
             functions: vec![],
             builtins: vec![],
@@ -899,6 +904,11 @@ impl<E: Effect> Executor<E> {
     pub fn mark_selecting(&mut self, id: ProcessId) {
         self.selecting.insert(id);
         self.queue.retain(|&pid| pid != id);
+    }
+
+    /// The processes that terminated since the last call (see `exited`), oldest first.
+    pub fn take_exited(&mut self) -> Vec<ProcessId> {
+        std::mem::take(&mut self.exited)
     }
 
     pub fn mark_effecting(&mut self, id: ProcessId) {
@@ -1280,6 +1290,7 @@ impl<E: Effect> Executor<E> {
                     let Some(result) = process.stack.pop() else {
                         // Stack underflow - process finished with no result on stack
                         process.result = Some(Err(Error::StackUnderflow));
+                        self.exited.push(current_pid);
                         return (true, None); // Did work but hit error
                     };
                     process.result = Some(Ok(result.clone()));
@@ -1304,6 +1315,13 @@ impl<E: Effect> Executor<E> {
 
             // Get the process result to check if it's an error
             let process_result = self.get_process(current_pid).and_then(|p| p.result.clone());
+
+            // The process has terminated unless it is persistent and merely went to sleep.
+            let sleeping = matches!(process_result, Some(Ok(_)))
+                && self.get_process(current_pid).is_some_and(|p| p.persistent);
+            if !sleeping {
+                self.exited.push(current_pid);
+            }
 
             for awaiter in awaiters {
                 match &process_result {
